@@ -372,11 +372,14 @@ def _input_form(cfg, arr, which):
         arr = arr[:, 0]                  # 1-D input is allowed for a single subchannel
     if not cfg.is_complex:
         return arr
+    full = which
     which = which % 3
     if which == 1:
         out = np.zeros((arr.shape[0], 2 * cfg.nsub), dtype=cfg.realdtype)
         out[:, 0::2] = arr["r"].reshape(arr.shape[0], -1)
         out[:, 1::2] = arr["i"].reshape(arr.shape[0], -1)
+        if cfg.nsub == 1 and (full // 3) % 2 == 1:
+            return out.reshape(-1)       # flat I/Q: 2N values for N samples of a single subchannel
         return out
     if which == 2 and cfg.kind == "f":
         return (arr["r"].astype("f%d" % cfg.size) + 1j * arr["i"].astype("f%d" % cfg.size)).astype("c%d" % (2 * cfg.size))
